@@ -1,7 +1,7 @@
 import Dmn.Lemmas.LexerName
 
 /-!
-# The lexer never panics outside the `till_in` hazard, and never runs out of fuel
+# The lexer never panics
 -/
 
 namespace Dmn.Lexer
@@ -45,10 +45,7 @@ theorem consumeUnicode_no_panic (inp : List Nat) (pos : Nat) (s : PanicSite) :
         · intro h; cases h
         · rename_i hh; exact absurd hh (consumeUnicodeLiteral_no_panic _ _ _)
         · intro h; cases h
-        · split
-          · simp only
-            split <;> (intro h; cases h)
-          · intro h; cases h
+        · split <;> (intro h; cases h)
       · intro h; cases h
 
 theorem ite_ne_panic {α : Type} {c : Prop} [Decidable c] {a b : Out α} {s : PanicSite}
@@ -83,20 +80,31 @@ theorem consumeString_no_panic (inp : List Nat) (pos : Nat) (s : PanicSite) :
     consumeString inp pos ≠ .panic s :=
   stringLoop_no_panic _ _ _ _ _
 
-/-! ## Names: the only panic is the `till_in` tweak with `in` as the first part -/
+/-! ## Names: no index of `consume_name` is out of bounds -/
 
-/-- `finishName` panics only at lexer.rs:645, and only when `till_in` is set and the first
-collected part is `in`. -/
-theorem finishName_panic (l : Lx) (st : NameSt) (hl : st.positions.length = st.parts.length)
-    (s : PanicSite) (h : finishName l st = .panic s) :
-    s = .tillInIndexMinus1 ∧ l.tillIn = true ∧ positionOfIn st.parts = some 0 := by
+theorem filter_pos_some {o : Option Nat} {i : Nat} (h : o.filter (fun i => 0 < i) = some i) :
+    o = some i ∧ 0 < i := by
+  cases o with
+  | none => simp at h
+  | some j =>
+    simp only [Option.filter] at h
+    split at h
+    · rename_i hj
+      cases h
+      exact ⟨rfl, by simpa using hj⟩
+    · cases h
+
+/-- `finishName` never panics: `consumed_positions` is as long as `parts`, the `till_in` tweak
+only fires for an index `> 0` (lexer.rs:649), and the prefix loop stays within `1..parts.len()`. -/
+theorem finishName_no_panic (l : Lx) (st : NameSt) (hl : st.positions.length = st.parts.length)
+    (s : PanicSite) : finishName l st ≠ .panic s := by
+  intro h
   unfold finishName at h
   split at h
   · -- item
     rename_i hitem
     split at h
-    · exfalso
-      rename_i hp
+    · rename_i hp
       have : st.parts ≠ [] := by
         intro he; simp [he] at hitem
       have hlen : 0 < st.positions.length := by
@@ -111,21 +119,18 @@ theorem finishName_panic (l : Lx) (st : NameSt) (hl : st.positions.length = st.p
         · exact ht
         · simp [ht] at hidx
       simp only [htill, if_true] at hidx
+      obtain ⟨hpos, hgt⟩ := filter_pos_some hidx
       split at h
       · rename_i h0
-        cases h
-        subst h0
-        exact ⟨rfl, htill, hidx⟩
+        omega
       · split at h
-        · exfalso
-          rename_i hp
-          have := positionOfIn_lt _ _ hidx
+        · rename_i hp
+          have := positionOfIn_lt _ _ hpos
           have hlen : index - 1 < st.positions.length := by omega
           simp [List.getElem?_eq_getElem hlen] at hp
         · cases h
     · split at h
-      · exfalso
-        rename_i hh
+      · rename_i hh
         exact prefixLoop_no_panic l.keys st.parts st.positions hl _ (Nat.le_refl _) _ hh
       · cases h
       · cases h
@@ -133,27 +138,15 @@ theorem finishName_panic (l : Lx) (st : NameSt) (hl : st.positions.length = st.p
       · repeat' split at h
         all_goals cases h
 
-/-- The hazard of finding F5: the lexer is in `till_in` mode, the text at the cursor is not the
-keyword `in` (followed by white space or the end of the input) and the name at the cursor has
-`in` as its first part. -/
-def tillInHazard (l : Lx) : Bool :=
-  l.tillIn &&
-    !(kw (readBuf l.input (skipBlanks l.input l.pos)) [105, 110, 32]) &&
-    (match collectParts l.input (skipBlanks l.input l.pos) with
-     | .ok st => positionOfIn st.parts == some 0
-     | _ => false)
-
-theorem consumeName_panic (l : Lx) (s : PanicSite) (h : consumeName l = .panic s) :
-    s = .tillInIndexMinus1 ∧ l.tillIn = true ∧
-      ∃ st, collectParts l.input l.pos = .ok st ∧ positionOfIn st.parts = some 0 := by
+theorem consumeName_no_panic (l : Lx) (s : PanicSite) : consumeName l ≠ .panic s := by
+  intro h
   unfold consumeName at h
   split at h
   · cases h
   · rename_i hh; exact absurd hh (collectParts_no_panic _ _ _)
   · cases h
   · rename_i st hst
-    have := finishName_panic l st (collectParts_len hst) s h
-    exact ⟨this.1, this.2.1, st, hst, this.2.2⟩
+    exact finishName_no_panic l st (collectParts_len hst) s h
 
 theorem ite_panic {α : Type} {c : Prop} [Decidable c] {a b : Out α} {s : PanicSite} {P : Prop}
     (ha : a = .panic s → P) (hb : ¬ c → b = .panic s → P) : (if c then a else b) = .panic s → P := by
@@ -161,8 +154,8 @@ theorem ite_panic {α : Type} {c : Prop} [Decidable c] {a b : Out α} {s : Panic
   · exact ha h
   · exact hb ‹_› h
 
-theorem readNextToken_panic (l : Lx) (s : PanicSite) :
-    readNextToken l = .panic s → s = .tillInIndexMinus1 ∧ tillInHazard l = true := by
+theorem readNextToken_no_panic (l : Lx) (s : PanicSite) : readNextToken l ≠ .panic s := by
+  show readNextToken l = .panic s → False
   simp only [readNextToken, advance]
   repeat (refine ite_panic (fun h => by cases h) (fun _ => ?_))
   -- the string literal
@@ -178,14 +171,7 @@ theorem readNextToken_panic (l : Lx) (s : PanicSite) :
   refine ite_panic ?_ (fun _ => ?_)
   · refine ite_panic (fun h => by cases h) (fun _ h => by cases h)
   -- the name
-  refine ite_panic ?_ (fun _ => ?_)
-  · intro h
-    have hin : ¬ kw (readBuf l.input (skipBlanks l.input l.pos)) [105, 110, 32] = true := by assumption
-    have := consumeName_panic _ s h
-    refine ⟨this.1, ?_⟩
-    obtain ⟨_, ht, st, hst, hp⟩ := this
-    simp only at ht hst
-    simp [tillInHazard, ht, hst, hp, hin]
+  refine ite_panic (fun h => consumeName_no_panic _ s h) (fun _ => ?_)
   refine ite_panic (fun h => by cases h) (fun _ h => by cases h)
 
 end Dmn.Lexer
